@@ -44,7 +44,8 @@ def jArray : Option ArrayData → String
   | none => "null"
   | some a => "{\"names\":" ++ jList (a.names.map (fun n => jList [jValue n.1, jValue n.2])) ++
       s!",\"null\":[{a.null.1},{a.null.2}]" ++
-      ",\"frames\":" ++ jList (a.frames.map (fun r => jList (r.map jCell))) ++ "}"
+      ",\"frames\":" ++ jList (a.frames.map (fun r => jList (r.map jCell))) ++
+      ",\"mask\":" ++ jList ((maskOf a).map (fun r => jList (r.map (fun b => if b then "1" else "0")))) ++ "}"
 
 def jFile (f : LasFile) : String :=
   "{\"ok\":{\"sections\":" ++ jList (f.sections.map jSection) ++ ",\"array\":" ++ jArray f.array ++ "}}"
